@@ -15,7 +15,7 @@ lg = isym("lg")
 
 
 def pad_of(n):
-    return isym(f"pad[{sp.expand(n)}]")
+    return sfun("pad")(sp.expand(n))
 
 
 def chal(label, k=0, clone=False):
